@@ -14,6 +14,8 @@ filtered value, `(filter t v).2 ∈ {ok, soft, fatal}` the error class.
 import Martian.Types
 import Proofs.Types
 import Proofs.TypesRound
+import Proofs.JsonRound
+import Proofs.TypesAgree
 import Gen.Facts
 
 namespace Props.C17
@@ -496,6 +498,37 @@ theorem float_range_witnesses :
 /-- non-vacuity: a soft filtering in the rounded model that drops a member and rewrites a numeral -/
 example : (Martian.TypesR.filter tA (.obj [(kx, .null), (ka, .num (.flt 90071992547409930 (-1)))])).2
     = .soft := by decide +kernel
+
+/-- The two models differ ONLY through rounding: on a float-syntax literal that
+is exactly a float64 value (`Num.exact64`, a decidable predicate on the exact
+mantissa/exponent) the decision the code makes on the rounded value is the
+decision of exact decimal arithmetic (`intValue?` + `int64` range) … -/
+theorem goInt_exact_of_exact64 (m e : Int) (h : Num.exact64 (.flt m e) = true) :
+    Num.goInt? (.flt m e) = match (Num.flt m e).intValue? with
+      | some i => if Num.inInt64 i then some i else none
+      | none => none :=
+  Num.goInt?_of_exact_flt m e h
+
+/-- … and therefore validation and filtering in the two models coincide – verdict,
+filtered value, error class, for every type – on every JSON value all of whose
+numerals are float64 values.  So every theorem of sections 1–8 is a theorem
+about the code's behaviour on such values, and section 9 covers the rest. -/
+theorem models_agree_on_exact_numerals (t : Ty) (v : J) (h : Martian.TypesR.NumsExact v) :
+    Martian.TypesR.filter t v = filter t v ∧ Martian.TypesR.check t v = check t v :=
+  ⟨Martian.TypesR.filter_agree t v h, Martian.TypesR.check_agree t v h⟩
+
+/-- non-vacuity: `{"a": 1.0, "x": [0.5, 1e22, 9007199254740992]}` has exact numerals only -/
+example : Martian.TypesR.NumsExact (.obj [(ka, .num (.flt 10 (-1))),
+    (kx, .arr [.num (.flt 5 (-1)), .num (.flt 1 22), .num (.int 9007199254740992)])]) := by
+  refine .obj _ ?_
+  intro kv hkv
+  simp only [List.mem_cons, List.not_mem_nil, or_false] at hkv
+  rcases hkv with rfl | rfl
+  · exact .num _ (by decide +kernel)
+  · refine .arr _ ?_
+    intro x hx
+    simp only [List.mem_cons, List.not_mem_nil, or_false] at hx
+    rcases hx with rfl | rfl | rfl <;> exact .num _ (by decide +kernel)
 
 end Rounded
 
